@@ -953,7 +953,8 @@ namespace hs
                     arena_cache0);
 
         // --- the allocation itself: C01 / C02 ---
-        auto& a  = shadow_.add(cprop("C01"), p, usable, r.align, idx, S.o->owner, S.o->header, true);
+        auto& a  = shadow_.add(cprop("C01,C02"), p, usable, r.align, idx, S.o->owner, S.o->header, true);
+        // (a fresh allocation that overlaps a live one, or runs past its block, is not "size usable bytes" either)
         a.array  = r.array;
         a.count  = r.count;
         a.size   = r.size;
